@@ -7,7 +7,7 @@ from .ref import wire, keys as RK, sig as RS, grammar
 from . import pool, sigwork
 
 PRIMARIES = ['ed25519_0', 'rsa1024_0', 'ecdsa_p256_0', 'dsa1024_0', 'ecdsa_k256_0', 'ed25519_1', 'rsa2048_0', 'ecdsa_p384_0']
-SUBPOOL = ['cv25519_0', 'cv25519_1', 'ed25519_2', 'ecdh_p256_0', 'rsa1024_1', 'ecdsa_p256_1', 'ecdh_k256_0', 'ed25519_3', 'dsa1024_1', 'ecdh_p384_0']
+SUBPOOL = ['cv25519_0', 'cv25519_1', 'ed25519_2', 'ecdh_p256_0', 'rsa1024_1', 'ecdsa_p256_1', 'ecdh_k256_0', 'ed25519_3', 'dsa1024_1', 'ecdh_p384_0', 'ecdh_p256_1+kdf10.9', 'cv25519_2+kdf9.8']
 CERTIFIERS = ['ed25519_3', 'ecdsa_p256_2', 'rsa1024_2']
 UIDTEXTS = [('Alice Example', '', 'alice@example.org'), ('Ünïcode Nämé 日本', 'cömment', 'u@example.org'), ('Bob', 'work', 'bob@work.example'), ('NoMail', '', ''),
             ('Zed', '', 'zed@example.org'), ('Dup Name', 'a', 'dup@example.org')]
@@ -19,7 +19,8 @@ def random_shape(r, rich=True):
     texts = r.sample(range(len(UIDTEXTS)), nu)
     same = r.random() < 0.4
     shape = {'primary': r.choice(PRIMARIES), 'same_second': same, 'uids': [], 'uas': r.choice([0, 0, 1, 2]) if rich else 0, 'subs': [],
-             'direct': r.random() < 0.4, 'revoker': r.random() < 0.3, 'key_revoked': r.random() < 0.15}
+             'direct': r.random() < 0.4, 'revoker': r.random() < 0.3, 'key_revoked': r.random() < 0.15,
+             'third_direct': r.choice([None, None, 'exportable', 'local', 'both']), 'sub_local_cert': r.random() < 0.15}
     for t in texts:
         shape['uids'].append({'text': t, 'third': r.choice([0, 0, 1, 2, 3]), 'revoked': r.random() < 0.2, 'nonexp': r.random() < 0.3, 'exp_true': r.random() < 0.3,
                               'attest': r.random() < 0.2, 'recert': r.random() < 0.3, 'primary': r.choice([None, True, False])})
@@ -86,6 +87,17 @@ def build(shape):
                 sk |= k.revoke(sk, created=when())
         if shape.get('direct'):
             k |= k.certify(k, created=when())
+        td = shape.get('third_direct')
+        if td:
+            # certifications by others directly on the key (type 0x1F), exportable or local
+            for j, exp in enumerate({'exportable': [True], 'local': [False], 'both': [None, False]}[td]):
+                c = certifier(CERTIFIERS[(j + 1) % len(CERTIFIERS)])
+                opts = {'created': when()}
+                if exp is not None:
+                    opts['exportable'] = exp
+                s_ = c.certify(k, **opts)
+                k |= s_
+                (info['nonexportable'] if exp is False else info['exportable']).append(bytes(s_))
         if shape.get('revoker'):
             k |= k.revoker(certifier(CERTIFIERS[0]).pubkey, created=when())
         if shape.get('key_revoked'):
